@@ -126,7 +126,7 @@ def run(ctx):
 
     # ---- 2. random graphs / records / configurations --------------------------------------------------------------------------
     sizes = [1, 1, 2, 3, 4, 5, 8, 13, 30, 80, 200, 350]
-    n_rounds = 25 if ctx.quick else 400
+    n_rounds = 25 if ctx.quick else 1500
     ctx.bound("random: %d rounds x sizes %s records, 1-3 chromosomes, random tagged rGFAs (3-5 reference nodes per chromosome, 0-2 bubbles, "
               "optional inversion, 25%% or 0%% or 60%% untagged nodes), walks of <= 3 steps, optional fields none/cg only/tp+NM/rich "
               "(Z values with blanks and colons, pre-existing bo/sn/iv, empty Z) and 0-10%% byte-identical repeated lines, all 4 "
